@@ -109,6 +109,43 @@ pub fn run_memo(seed: u64, histories: usize, out: &str) -> serde_json::Value {
             }
         }
     }
+    // the per-character memo (MessDetectorChar::new, keyed by the character): after classifying a set of characters in
+    // one order, every memoised record must equal the record its uncached body computes -- in particular for characters
+    // whose code points coincide in their low 16 / 8 bits or differ only in the plane (aliasing keys)
+    {
+        hooks::flush_caches();
+        let mut cps: Vec<u32> = vec![];
+        for _ in 0..1500 {
+            let base = match rng.below(4) { 0 => 0x20 + rng.below(0x2000) as u32, 1 => 0xac00 + rng.below(0x2ba4) as u32, 2 => 0x4e00 + rng.below(0x5200) as u32, _ => rng.below(0x10000) as u32 };
+            for plane in [0u32, 1, 2, 0xe, 0xf, 0x10] {
+                cps.push((plane << 16) | (base & 0xffff));
+            }
+            cps.push(base & 0xff);
+        }
+        // classify supplementary planes FIRST on even seeds, BMP first on odd ones
+        if seed % 2 == 0 { cps.reverse(); }
+        let chars: Vec<char> = cps.iter().filter_map(|&c| char::from_u32(c)).collect();
+        for &c in &chars { let _ = hooks::mess_char_full(c); }
+        for &c in &chars {
+            evals += 1;
+            let (a, b) = (hooks::mess_char_full(c), hooks::mess_char_no_cache(c));
+            if a != b {
+                violations.push(json!({"prop": "C11", "what": format!("memoised character record of U+{:04X} differs from its uncached body after other characters were classified: {:?} vs {:?}", c as u32, a, b),
+                    "known": null, "case": {"code_point": c as u32, "classified_before": "1500 base code points x planes 0,1,2,14,15,16 and their low bytes"}}));
+                if violations.len() > 20 { break; }
+            }
+        }
+        // the per-name memo (encoding_languages): every supported name, twice, in two orders
+        let names = supported();
+        let first: Vec<String> = names.iter().map(|n| format!("{:?}", hooks::encoding_languages(n.clone()))).collect();
+        for (n, f) in names.iter().zip(first.iter()).rev() {
+            evals += 1;
+            let again = format!("{:?}", hooks::encoding_languages(n.clone()));
+            if &again != f {
+                violations.push(json!({"prop": "C11", "what": format!("encoding_languages({}) differs between two calls", n), "known": null, "case": {"name": n}}));
+            }
+        }
+    }
     let rep = json!({"level": "memo", "seed": seed, "evaluations": evals, "distinct_nontrivial": nontrivial, "pool": p.len(), "histories": histories,
         "violations": violations, "disagreements": [], "samples": samples});
     std::fs::write(out, serde_json::to_string_pretty(&rep).unwrap()).expect("write");
